@@ -148,7 +148,7 @@ INLINE = [
     ("code_in_link", "[`c`](http://x.y)"), ("escaped", "\\*not emph\\* \\\"q\\\""),
     ("link_text_is_label", "[lab](http://other.example/x \"O\")"), ("ref_text_is_label", "[lab][lab2]"),
     ("code_bt_start", "`` `tick ``"), ("code_bt_end", "`` tick` ``"), ("code_bt_both_sp", "``  `a`  ``"),
-    ("www", "www.example.com/a_b?c=d"), ("bare_email", "joe.q@example.com"), ("bare_mailto", "mailto:joe.q@example.com"), ("bare_xmpp", "xmpp:joe@example.com/res"), ("email", "<joe.q@example.com>"), ("mailto", "<mailto:joe@example.com>"), ("link_escparen", "[t](http://e.com/a\\)b \"say \\\"hi\\\"\")"),
+    ("www", "www.example.com/a_b?c=d"), ("www_cjk", "www.example.com/wiki/中文abc页面"), ("url_cjk", "https://example.com/中文abc页"), ("code_cjk", "`中文abc页`"), ("link_cjk", "[t](http://e.com/中文abc)"), ("bare_email", "joe.q@example.com"), ("bare_mailto", "mailto:joe.q@example.com"), ("bare_xmpp", "xmpp:joe@example.com/res"), ("email", "<joe.q@example.com>"), ("mailto", "<mailto:joe@example.com>"), ("link_escparen", "[t](http://e.com/a\\)b \"say \\\"hi\\\"\")"),
     # constructs that span two source lines, the first ending in two spaces / a backslash / one space: not a hard break inside a tag, comment or title
     ("html_ml_2sp", "<span  \nclass=\"a\">"), ("hcomment_ml_2sp", "<!-- c  \nd -->"), ("link_title_ml_2sp", "[t](http://e.com \"ti  \ntle\")"),
     ("image_title_ml_2sp", "![i](x.png \"ti  \ntle\")"), ("html_ml_bs", "<span title=\"C:\\tmp\\\nfiles\">"), ("hcomment_ml_bs", "<!-- path C:\\build\\\nout -->"), ("html_ml_1sp", "<span \nclass=\"a\">"), ("code_ml_2sp", "`co  \nde`"),
